@@ -437,7 +437,12 @@ def check_region(ctx, case):
         excls[i] = excl
         m = pm.Model(tol)
         m.pieces = pieces
-        pm.apply_caps(m, pieces[0][2], pieces[-1][3], {"end": e["end"], "ext": e["ext"]})
+        # exact end tangents of the centre curve (the chords of the densified curve are half a step off)
+        h_ = 1e-6
+        a0 = H.centre(i, 0, np.array([0.0, h_]))
+        a1 = H.centre(i, nsec - 1, np.array([1.0 - h_, 1.0]))
+        tans = (pm.unit((a0[1][0] - a0[0][0], a0[1][1] - a0[0][1])), pm.unit((a1[1][0] - a1[0][0], a1[1][1] - a1[0][1])))
+        pm.apply_caps(m, pieces[0][2], pieces[-1][3], {"end": e["end"], "ext": e["ext"]}, tangents=tans)
         m.finish()
         S = pm.samples(m, band)
         S = [s_ for s_ in S if not any(math.hypot(s_[0] - x[0], s_[1] - x[1]) <= x[2] for x in excl)]
